@@ -41,6 +41,9 @@ FileForms == {"plain", "mixed_case", "empty_sections"}
 \* constructor or model_validate with that data is the same step - it becomes the one active configuration, or is
 \* refused while one is active
 LoadEntries == {"load", "constructor", "model_validate"}
+\* ListSettings: some settings are lists (search path, data_path_overrides).  A list is a value: the layer that gives one
+\* REPLACES what the layers below it said (the harness couples a one-element list to every layer's SOx value, so Eff(sox)
+\* of this specification is also the expected list).
 \* PathsResolved: whatever the layers say about other settings, an active configuration names its performance model and
 \* engine file by absolute paths of existing files, and a load naming a missing one fails (FailKinds) also when it
 \* comes together with a harmless setting of another section
